@@ -130,6 +130,12 @@ pub mod hash_table {
     }
 }
 
+/// Read-only verification hooks; not part of the public API.
+#[cfg(feature = "verif-hooks")]
+pub mod verif {
+    pub use crate::raw::verif::*;
+}
+
 pub use crate::map::HashMap;
 pub use crate::set::HashSet;
 pub use crate::table::HashTable;
